@@ -633,6 +633,9 @@ class BuiltinMixin:
                 return m(self, args, kwargs)
             if name in ('dbus.String', 'dbus.ObjectPath'):
                 return args[0] if args else mk_str_const('')
+            if name.endswith('.__init__') and (name.split('.')[0] in ('Exception', 'RuntimeError', 'ValueError', 'KeyError')
+                                               or name.startswith('dbus.service.Object')):
+                return NONE
             raise Unsupported('external function %s' % name)
         if kind == 'anyattr':
             base, attr = fv.py[1], fv.py[2]
